@@ -139,7 +139,22 @@ def solve_one(job, catalogue, trees):
             if job["type"] == "ivp":
                 fwd = job["dir"] == "fwd"
                 span = (x0, x1) if fwd else (x1, x0)
-                y0 = [float(fr(v)) for v in p["ivp"]["fwd" if fwd else "bwd"]]
+                # Initial data as numbers of the type the problem states them in.  The manufactured problem is
+                # linear, so c*y solves the same equation with right-hand side c*f: every second problem is
+                # posed for c = lcm of the denominators of its initial data, which makes the data integers,
+                # passed as Python ints or as an integer ndarray ("list or ndarray" of numbers).
+                raw = [fr(v) for v in p["ivp"]["fwd" if fwd else "bwd"]]
+                y0 = [float(v) for v in raw]
+                cden = 1
+                for v in raw:
+                    cden = cden * v.denominator // math.gcd(cden, v.denominator)
+                if int(p["id"]) % 2 == 0 and cden <= 4096:
+                    y0 = [int(v * cden) for v in raw]
+                    if int(p["id"]) % 4 == 0:
+                        y0 = np.array(y0, dtype=int)
+                    f0 = fx
+                    fx = (lambda x, f0=f0, cden=cden: cden * f0(x))
+                    exact = exact * cden
                 sol = solve_ode_ivp(span, fx, coeffs, y0, transform=tf, method=job["method"],
                                     no_derivatives=False, rtol=IVP_TOL, atol=IVP_TOL)
             else:
